@@ -228,15 +228,13 @@ func PanicClass(val any, stack string) string {
 	for _, l := range lines {
 		if i := indexOf(l, "github.com/asticode/go-astits."); i >= 0 {
 			fn = l[i+len("github.com/asticode/go-astits."):]
-			if j := indexOf(fn, "("); j > 0 {
-				// keep receiver types like (*Demuxer).NextData
-				if fn[0] == '(' {
-					if k := indexOf(fn[1:], "("); k > 0 {
-						fn = fn[:k+1]
-					}
-				} else {
-					fn = fn[:j]
+			if fn != "" && fn[0] == '(' {
+				// keep receiver types like (*Demuxer).NextData, drop the arguments
+				if k := indexOf(fn[1:], "("); k > 0 {
+					fn = fn[:k+1]
 				}
+			} else if j := indexOf(fn, "("); j > 0 {
+				fn = fn[:j]
 			}
 			break
 		}
